@@ -38,6 +38,10 @@ def scenarios(tier, seed):
     # growth rates far below the shipped ones (a cell of 1e-15 m^3 with a cycle of hours grows at about 5e-20 m^3/s): the law is the same
     # at every magnitude -- an absolute tolerance on the rate would freeze these cells
     out.append(sc("tinygrow", [tc.cell(0, 0, growth=5e-20), tc.cell(1, far, growth=-5e-20), tc.cell(2, 2 * far, growth=1e-17), tc.cell(3, 3 * far, growth=-3e-16)], T=1200))
+    # thresholds met with equality: volume exactly at the division volume (eligible: the division goes ahead), volume exactly at the minimum
+    # volume right before the removal phase (not below it: the cell stays)
+    out.append(sc("equal", [tc.cell(0, 0, level=2), tc.cell(1, far, level=2), tc.cell(2, 2 * far)], [{"iter": 5, "do": "ready_eq", "cell": 0}, {"iter": 3, "do": "small_eq", "cell": 2},
+                                                                                              {"iter": 7, "do": "small_eq", "cell": 1}], T=1200))
     if tier == "thorough":
         rnd = random.Random(seed)
         for k in range(6):
